@@ -141,6 +141,16 @@ impl Report {
 
     /// write evidence, print verdict lines, return the process exit code
     pub fn finish(mut self) -> i32 {
+        // replay mode for checks that are cheap enough to be re-run as a whole: report only
+        // whether the recorded finding key shows up again; write nothing
+        if let Ok(key) = std::env::var("VERIF_REPLAY_KEY") {
+            let hit = self.violations.iter().find(|v| v.key == key);
+            match hit {
+                Some(v) => println!("  replay: key still violated: sub={} observed={}", v.sub, short(&v.observed)),
+                None => println!("  replay: key not violated in this run ({} violations in total)", self.violations_total),
+            }
+            return if hit.is_some() { 1 } else { 0 };
+        }
         let root = verif_root();
         let known = KnownFindings::load(&root.join("KNOWN_FINDINGS.txt"));
         let mut unlisted = 0u64;
